@@ -60,6 +60,17 @@ static void c04_gen(Rng &rng, Plan &plan, bool thorough)
 	}
 	static const int64_t ml[] = { -1, -1, -1, 1, 20000, 1000000 };
 	plan.setp("memlimit", ml[rng.below(6)]);
+	// field-level faults: a count or size field holding a boundary value (2^60,
+	// 2^63-1, 2^32, ...); in an Index the Number of Records is at offset 1.
+	// Now and then the CRC32 protecting the damaged header/Index is recomputed.
+	if (rng.chance(250)) {
+		Op op("sfault");
+		op.set("kind", 6).set("val", (int64_t)rng.below(16)).set("len", (int64_t)rng.below(8));
+		if (rng.chance(500)) op.set("abs", rng.chance(700) ? 1 : (int64_t)rng.below(40)); else op.set("pos", (int64_t)rng.below(1000000));
+		plan.ops.push_back(op);
+		if (rng.chance(700)) plan.setp("memlimit", -1);
+	}
+	plan.setp("fix_crc", rng.chance(400) ? 1 : 0);
 	uint32_t flags = 0;
 	if (rng.chance(500)) flags |= LZMA_CONCATENATED;
 	if (rng.chance(200)) flags |= LZMA_TELL_ANY_CHECK;
@@ -178,6 +189,8 @@ static Bytes make_data(const Plan &plan, int entry, Chain &chain, Verdict &v, lz
 	std::string err;
 	Bytes plain;
 	XzInfo info;
+	// the single-call decoders get the artefact kind they expect
+	if (entry == E_BUFFER_API) { static const int m[] = { E_STREAM, E_RAW, E_INDEX, E_BLOCK }; entry = m[plan.p("rand_seed") % 4]; }
 	auto generated = [&]() {
 		Bytes in = gen_input((int)plan.p("art0_class", IN_TEXT), (size_t)plan.p("art0_len", 500), (uint64_t)plan.p("art_seed", 1));
 		if (uncomp_size) *uncomp_size = in.size();
@@ -245,6 +258,14 @@ static Bytes make_data(const Plan &plan, int entry, Chain &chain, Verdict &v, lz
 		for (size_t i = 0; i < n; ++i) data.push_back((uint8_t)r.next());
 	}
 	for (auto &op : plan.ops) if (op.name == "sfault") apply_one_fault(op, data, &v);
+	if (plan.p("fix_crc", 0) && src == 0 && !data.empty()) {
+		if ((entry == E_BLOCK || entry == E_BLOCK_HEADER) && data[0] != 0) {
+			size_t hs = ((size_t)data[0] + 1) * 4;
+			if (hs <= data.size()) { uint32_t c = lzma_crc32(data.data(), hs - 4, 0); for (int i = 0; i < 4; ++i) data[hs - 4 + (size_t)i] = (uint8_t)(c >> (8 * i)); v.count("fault.header_crc_recomputed"); }
+		} else if ((entry == E_INDEX || entry == E_INDEX_HASH) && data.size() >= 8 && data.size() % 4 == 0) {
+			uint32_t c = lzma_crc32(data.data(), data.size() - 4, 0); for (int i = 0; i < 4; ++i) data[data.size() - 4 + (size_t)i] = (uint8_t)(c >> (8 * i)); v.count("fault.index_crc_recomputed");
+		}
+	}
 	(void)blk_out; (void)blk_filters;
 	return data;
 }
